@@ -125,18 +125,7 @@ class Prop:
                 return 'unreadable result ' + out[:120]
             if m.group(1) != m.group(2):
                 return 'the schema with `enum: @name` and the schema with the list inline differ: %s vs %s' % (m.group(1), m.group(2))
-            a = case.line.split(' ')
-            rule, ex = bytes.fromhex(a[1]), bytes.fromhex(a[2])
-            try:
-                vals = [l for l, c in ref_parse(rule) if l is not None]
-            except Rej:
-                return None
-            member = keyof(ex) in [keyof(v) for v in vals]
-            ok = m.group(1).startswith('ok;')
-            if member and not ok:
-                return 'the example %r is in the list but the schema is rejected: %s' % (ex, m.group(1)[:60])
-            if not member and ok:
-                return 'the example %r is not in the list but the schema is accepted' % ex
+            # whether the example is a member of the list is the enum rule's meaning: C01's subject, not C17's
             return None
         text = bytes.fromhex(case.line.split(' ')[1]) if case.line.split(' ')[1] != '-' else b''
         m = re.match(r'check=(\S+) len=(\S+) values=(\S+)', out)
